@@ -69,7 +69,10 @@ def gen_exportable(rng):
                 mods.append({"name": "lumi", "type": "lumi", "data": None})
             for sn in sysn:
                 if rng.random() < 0.5:
-                    mods.append({"name": sn, "type": "normsys", "data": {"hi": gen._round(1 + rng.uniform(0.01, 0.3), 4), "lo": gen._round(1 - rng.uniform(0.01, 0.3), 4)}})
+                    up, dn = gen._round(1 + rng.uniform(0.01, 0.3), 4), gen._round(1 - rng.uniform(0.01, 0.3), 4)
+                    if rng.random() < 0.3:
+                        up, dn = dn, up  # anti-correlated with the other samples: the +1 sigma variation lowers this yield
+                    mods.append({"name": sn, "type": "normsys", "data": {"hi": up, "lo": dn}})
                 if rng.random() < 0.4:
                     mods.append({"name": sn, "type": "histosys", "data": {"hi_data": [gen._round(v * (1 + rng.uniform(0.01, 0.2)) + 0.01, 4) for v in data],
                                                                             "lo_data": [gen._round(v * (1 - rng.uniform(0.01, 0.2)) - (0.02 if v < 0 else 0.0), 4) for v in data]}})
